@@ -42,6 +42,8 @@ struct Inner {
     obs_log: Vec<String>,
     /// std locks announced through hooks: address -> owner
     held: HashMap<usize, usize>,
+    /// std read-write locks announced through hooks: address -> (readers, writer held)
+    rw: HashMap<usize, (usize, bool)>,
 }
 
 pub struct Sched { inner: Mutex<Inner>, cv: Condvar }
@@ -201,6 +203,28 @@ pub fn mutex_release(addr: usize) {
     wake_all(addr);
 }
 
+/// a std read-write lock at `addr` is about to be taken (shared or exclusive): scheduling point, then wait in the
+/// model until it is available
+pub fn rw_acquire(addr: usize, exclusive: bool) {
+    if !active() { return; }
+    point(if exclusive { "rwlock-write" } else { "rwlock-read" });
+    loop {
+        {
+            let Some((s, _me)) = sched() else { return };
+            let mut g = s.lock();
+            if g.abort.is_some() { drop(g); if !std::thread::panicking() { std::panic::resume_unwind(Box::new(Aborted)); } return; }
+            let e = g.rw.entry(addr).or_insert((0, false));
+            if exclusive { if e.0 == 0 && !e.1 { e.1 = true; return; } } else if !e.1 { e.0 += 1; return; }
+        }
+        block_on(addr);
+    }
+}
+pub fn rw_release(addr: usize, exclusive: bool) {
+    let Some((s, _me)) = sched() else { return };
+    { let mut g = s.lock(); if let Some(e) = g.rw.get_mut(&addr) { if exclusive { e.1 = false; } else if e.0 > 0 { e.0 -= 1; } } }
+    wake_all(addr);
+}
+
 /// while set, fork choices are not offered (jobs run inline): used for deterministic read-back phases
 pub fn inline_only(on: bool) { if let Some((s, _)) = sched() { s.lock().inline_only = on; } }
 
@@ -357,7 +381,7 @@ pub fn run_one<O: Send + 'static>(cfg: &Config, prefix: &[u8], body: &(dyn Fn() 
         inner: Mutex::new(Inner {
             current: 0, threads: vec![Th { status: Status::Runnable, pool: 0, worker: 0 }],
             pools: vec![Pool { size: cfg.workers, busy: { let mut b = vec![false; cfg.workers]; b[0] = true; b } }],
-            prefix: prefix.to_vec(), trace: vec![], abort: None, steps: 0, step_limit: cfg.step_limit, live_os: 1, inline_only: false, lock_ids: HashMap::new(), obs_log: vec![], held: HashMap::new(),
+            prefix: prefix.to_vec(), trace: vec![], abort: None, steps: 0, step_limit: cfg.step_limit, live_os: 1, inline_only: false, lock_ids: HashMap::new(), obs_log: vec![], held: HashMap::new(), rw: HashMap::new(),
         }),
         cv: Condvar::new(),
     });
